@@ -10,6 +10,7 @@ package atlasfake
 import (
 	"bufio"
 	"bytes"
+	"compress/gzip"
 	"crypto/ecdsa"
 	"crypto/elliptic"
 	"crypto/rand"
@@ -60,6 +61,10 @@ type Config struct {
 	// Auth: digest (default) | none | basic | always401 | malformed | status:<n> (every authenticated request answered n with an echo body)
 	Auth     string
 	EchoBody bool // error bodies echo method, URL and all request headers
+	// FrontEndGzip: hosts whose download passes a compressing front end — when the request
+	// advertises gzip the entity is sent with Content-Encoding: gzip (the .gz file compressed once more
+	// for transport); what the client stores must still be the entity itself
+	FrontEndGzip map[string]bool
 }
 
 type Server struct {
@@ -414,6 +419,17 @@ func (s *Server) handle(w http.ResponseWriter, r *http.Request, connect string) 
 			return
 		}
 		w.Header().Set("Content-Type", "application/gzip")
+		if s.cfg.FrontEndGzip[host] && strings.Contains(r.Header.Get("Accept-Encoding"), "gzip") {
+			var zb bytes.Buffer
+			zw := gzip.NewWriter(&zb)
+			zw.Write(body)
+			zw.Close()
+			w.Header().Set("Content-Encoding", "gzip")
+			w.Header().Set("Vary", "Accept-Encoding")
+			w.Header().Set("Content-Length", fmt.Sprint(zb.Len()))
+			w.Write(zb.Bytes())
+			return
+		}
 		w.Header().Set("Content-Length", fmt.Sprint(len(body)))
 		w.Write(body)
 	default:
